@@ -138,12 +138,14 @@ PROPS = {
                  "concurrent calls on the real IPDB checked against all sequential orders.",
         "props": ["C09"],
         "streams": [{"test": "TestSrvConc", "names": ["srvconc"], "timeout": 300}, {"test": "TestDbConc", "names": ["dbconc"], "timeout": 300},
-                    {"test": "TestSrvConc", "names": ["srvconc"], "timeout": 300, "race": True, "tier": "thorough"},
-                    {"test": "TestDbConc", "names": ["dbconc"], "timeout": 300, "race": True, "tier": "thorough"}],
+                    {"test": "TestSrvConc", "names": ["srvconc-race"], "timeout": 300, "race": True, "env": {"HX_N": "16", "HX_SUFFIX": "-race"},
+                     "env_thorough": {"HX_N": "600"}},
+                    {"test": "TestDbConc", "names": ["dbconc-race"], "timeout": 300, "race": True, "env": {"HX_N": "300", "HX_SUFFIX": "-race"},
+                     "env_thorough": {"HX_N": "40000"}}],
         "rule": "48 (thorough 600) real servers side by side, each with 2-5 hosts (distinct client identifiers) sending DISCOVERs 0-400 ms apart (landing "
                 "while earlier handlers sleep, probe and hold the lock), retrying lost races, then REQUESTing their offers with other hosts' DISCOVERs in "
                 "between; 1 500 (thorough 40 000) groups of 2-6 concurrent update/lookup/find calls on one IPDB whose results must equal those of some "
-                "permutation; thorough repeats both under the race detector",
+                "permutation; both repeated under the race detector (16 scenarios / 300 groups quick, full volume thorough)",
         "trusted": ["real-time scheduling only samples interleavings; the Go memory model is not modelled: data-race freedom is derived from the lock and "
                     "buffer-freshness facts, the race detector (thorough tier) is supporting evidence"],
         "partial": "Data-race clause partial (facts + race detector); the burst stream is monitor-only (no model-side interleaving search).",
